@@ -10,8 +10,8 @@ import (
 
 func init() {
 	eng.Register(&eng.Check{
-		ID: "C20",
-		Rule: "E6 rule-graph product walk (complete, no bound): grammar.peg is read with the harness's own PEG-syntax reader, grammar.go with go/parser; every rule (name, order, display name) and every expression node of both are walked in lockstep (node kind, alternatives, sequences, labels, & ! ? * +, literals + case flag, rule references, code predicates); for every character class membership of ALL 1 114 112 runes is compared (own class-syntax reader vs the table's chars/ranges/classes/inverted/ignoreCase); every action / predicate code block is compared with the on* function body after go/printer normalisation, its parameter list with the labels in scope and the callon* wrapper's argument order; no rule, on* or callon* function may be left unmatched. states = node pairs, transitions = child edges + rune membership checks; non-trivial = node pairs compared (every pair carries content). Source positions and display-only strings are reported, not judged.",
+		ID:          "C20",
+		Rule:        "E6 rule-graph product walk (complete, no bound): grammar.peg is read with the harness's own PEG-syntax reader, grammar.go with go/parser; every rule (name, order, display name) and every expression node of both are walked in lockstep (node kind, alternatives, sequences, labels, & ! ? * +, literals + case flag, rule references, code predicates); for every character class membership of ALL 1 114 112 runes is compared (own class-syntax reader vs the table's chars/ranges/classes/inverted/ignoreCase); every action / predicate code block is compared with the on* function body after go/printer normalisation, its parameter list with the labels in scope and the callon* wrapper's argument order; no rule, on* or callon* function may be left unmatched. states = node pairs, transitions = child edges + rune membership checks; non-trivial = node pairs compared (every pair carries content). Source positions and display-only strings are reported, not judged.",
 		Assumptions: []string{"complete structural comparison of the two files in /repo's working tree; the PEG engine part of grammar.go (generic pigeon runtime) is exercised behaviourally by C15/C10/C11"},
 		Run:         runC20,
 		Workers:     1,
